@@ -15,16 +15,16 @@ func init() { commands["c03-grace"] = c03Grace }
 
 // c03Grace: Tunnel.tla PForce. One direction of a tunnel has finished (the endpoint has sent what it had to send and shut
 // down its sending side), the opposite direction "keeps flowing until it is closed too" - for longer than the period
-// after which the proxy closes a tunnel by force. The period (1 minute in the code) is set to 400 ms; the flowing side
-// writes a block every 40 ms for 2 s, i.e. it is never idle for anything near the period.
+// after which the proxy closes a tunnel by force. The period (1 minute in the code) is set to 1 s; the flowing side
+// writes a block every 50 ms for 3.5 s, i.e. it is never idle for anything near the period.
 //
 //	kind download: the client sends a request and half-closes, the target answers at length   (CONNECT tunnel)
 //	kind upload:   the target greets and half-closes, the client uploads at length            (CONNECT tunnel)
 //	kind idle:     the client half-closes and the target stays silent: the tunnel is closed by force (allowed, noted)
 func c03Grace(e *env) {
-	old := martian.VerifSetBicopyGrace(400 * time.Millisecond)
+	old := martian.VerifSetBicopyGrace(time.Second)
 	defer martian.VerifSetBicopyGrace(old)
-	const blocks, every = 50, 40 * time.Millisecond
+	const blocks, every = 70, 50 * time.Millisecond
 	block := bytes.Repeat([]byte("0123456789abcdef"), 64) // 1 KiB
 	for _, kind := range []string{"download", "upload", "idle"} {
 		res := map[string]any{"ok": true, "kind": kind}
